@@ -10,6 +10,7 @@
 package main
 
 import (
+	"bytes"
 	"fmt"
 	"strconv"
 	"strings"
@@ -222,6 +223,33 @@ func gen(r *vh.Rand) string {
 		}
 		out, _ := hstring(r, randText(r, n), vm())
 		return out
+	}
+	if m >= 33 && m <= 400 && r.Chance(1, 3) {
+		// decoder side of "exactly at capacity": a few small indexed literals, then one indexed literal whose entry
+		// size is maxSize-1 / maxSize / maxSize+1 / maxSize+2 (the last two must EMPTY the table), then references
+		// to the newest and to the following index
+		for k := r.Range(0, 3); k > 0; k-- {
+			blk = append(blk, 0x40)
+			blk = append(blk, varint(r, 7, 1, 0, 0)...)
+			blk = append(blk, "xyz"[r.Intn(3)])
+			blk = append(blk, varint(r, 7, 1, 0, 0)...)
+			blk = append(blk, "abc"[r.Intn(3)])
+			dyn++
+		}
+		n := m - 32 - 1 + r.Range(-1, 2)
+		if n < 0 {
+			n = 0
+		}
+		blk = append(blk, 0x40)
+		blk = append(blk, varint(r, 7, 1, 0, 0)...)
+		blk = append(blk, 'k')
+		blk = append(blk, varint(r, 7, uint64(n), 0, 0)...)
+		blk = append(blk, bytes.Repeat([]byte{'v'}, n)...)
+		dyn++
+		blk = append(blk, 0x80|62)
+		if r.Bool() {
+			blk = append(blk, 0x80|63)
+		}
 	}
 	for i := 0; i < nrep; i++ {
 		switch r.Intn(10) {
